@@ -1,4 +1,4 @@
-import NriModel.Lemmas.ResultSteps
+import NriModel.Lemmas.ResultAbs
 /-!
 # C02 — plugins touching disjoint items, or removing before setting, never conflict
 
@@ -12,11 +12,15 @@ Same model and vocabulary as C01. Proved here:
 * `C02_release_unconditional`, `C02_release_listed` — marking an item for removal releases
   the earlier claim: afterwards the item is owned, if at all, by the removing plugin itself
   because its own response set it again.
-* `C02_disjoint_partial` — the request succeeds when no response sets an item that is owned,
-  stated per step; the full chain-level statement ("no two plugins set the same item ⇒
-  success", `Ledger.mustSucceed`) is checked on every generated chain by the correspondence
-  run; its proof needs the reply/ledger agreement invariant for the list families and is
-  stated in the comment at the end of this file.
+* `C02_disjoint` — the chain-level statement at full strength: whenever the abstract ledger
+  (`Ledger.absRun`: a bare set of owned (container, item) pairs; a response releases what it
+  marks for removal, must find what it sets free, then owns it) accepts a chain, the model's
+  request loop succeeds — from the fresh state of ANY creation, update or stop request, i.e.
+  whatever the original container or the runtime's own update request carries. The proof
+  carries the agreement invariant between the ledger and the reply lists of the keyed list
+  families (`ReplyHolds`), which is what makes a removal marker effective.
+* `C02_disjoint_partial` — the per-step form (a response setting only unowned-after-removal
+  items, each once, is accepted).
 -/
 namespace Nri.Props.C02
 open Nri Nri.Api Nri.Result Nri.Ledger
@@ -178,7 +182,39 @@ theorem C02_disjoint_partial (st : State) (p : Plugin) (a : Adjustment)
     hnd
   exact ⟨_, (adjust_ok_iff _ st _ p a).2 ⟨o, ho, rfl⟩⟩
 
+/-- **C02 (disjoint writers never conflict).** From the fresh ledger of any request: if the
+    abstract ledger accepts the chain — no response updates the container being created, none
+    names an item twice, and every item a response sets is, once that response's own removal
+    marks are applied, not owned by an earlier response — then the request succeeds. -/
+theorem C02_disjoint (st : State) (hfresh : st.owners = []) (rs : List (Plugin × Response))
+    (owned' : List (Cid × Item)) (h : absRun st.kind [] rs = some owned') :
+    ∃ st', run Quirks.fixed st (answeredAll rs) = .ok st' := by
+  obtain ⟨st', hr, _, _⟩ := run_abs rs st [] owned' (replyHolds_fresh st hfresh) (absRel_fresh st hfresh) h
+  exact ⟨st', hr⟩
+
+/-- the three request kinds, for every original container / requested resources -/
+theorem C02_disjoint_create (c0 : Container) (rs) (o) (h : absRun (.create c0.id) [] rs = some o) :
+    ∃ st', run Quirks.fixed (initCreate c0) (answeredAll rs) = .ok st' := C02_disjoint (initCreate c0) rfl rs o h
+theorem C02_disjoint_update (id : Cid) (req : Resources) (rs) (o) (h : absRun (.update id) [] rs = some o) :
+    ∃ st', run Quirks.fixed (initUpdate id req) (answeredAll rs) = .ok st' := C02_disjoint (initUpdate id req) rfl rs o h
+theorem C02_disjoint_stop (rs) (o) (h : absRun .stop [] rs = some o) :
+    ∃ st', run Quirks.fixed initStop (answeredAll rs) = .ok st' := C02_disjoint initStop rfl rs o h
+
 /-! ### the hypotheses are satisfiable -/
+
+-- the abstract ledger accepts: p0 sets mount /m and env E, p1 removes /m, p2 sets /m again and E's sibling
+example : (absRun (.create (str "c0")) []
+    [(str "10-a", { adjust := some { mounts := [{ destination := str "/m" }], env := [{ key := str "E" }] } }),
+     (str "20-b", { adjust := some { mounts := [{ destination := str "-/m" }] } }),
+     (str "30-c", { adjust := some { mounts := [{ destination := str "/m" }], env := [{ key := str "F" }] } })]).isSome = true := by
+  decide
+
+-- … and rejects the same chain without the middle removal
+example : (absRun (.create (str "c0")) []
+    [(str "10-a", { adjust := some { mounts := [{ destination := str "/m" }] } }),
+     (str "30-c", { adjust := some { mounts := [{ destination := str "/m" }] } })]).isSome = false := by
+  decide
+
 
 private def isErr : Except Err State → Bool | .error _ => true | .ok _ => false
 private def errIs (c : Str) (it : Item) (p q : Str) : Except Err State → Bool
